@@ -20,8 +20,11 @@ pub mod targets;
 #[cfg(any(feature = "c12", feature = "c13"))]
 pub mod chan;
 
+pub mod common;
 #[cfg(feature = "c03")]
 pub mod c03;
+#[cfg(feature = "c09")]
+pub mod c09;
 #[cfg(feature = "c10")]
 pub mod c10;
 #[cfg(feature = "c11")]
